@@ -7,13 +7,13 @@ ROOT = os.path.dirname(os.path.dirname(os.path.abspath(__file__)))
 PROPS = os.path.join(ROOT, 'lean', 'ChessVerif', 'Props')
 
 META = {
- 'C01': dict(files=['C01'], partial="FIDE exactness of the generator is proved in stages; see Props/C01.lean for the full statement `C01_full` and the proved parts", rule="positions from corpus, weighted playouts and synthesized valid set-ups (POS); the 20480-triple legality query on a subsample (LEGAL)"),
+ 'C01': dict(files=['C01', 'C01Struct', 'C01King', 'PinCheck'], partial="FIDE exactness of the generator is proved in stages; see Props/C01.lean for the full statement `C01_full` and the proved parts", rule="positions from corpus, weighted playouts and synthesized valid set-ups (POS); the 20480-triple legality query on a subsample (LEGAL)"),
  'C02': dict(files=['C02'], rule="every legal move of positions along playouts, make_move_new and make_move into three prefilled boards (MAKE)"),
  'C03': dict(files=['C03'], rule="positions reached incrementally along playouts with interleaved null moves, compared field by field with the from-scratch spec computation and with the re-parse of their own FEN"),
  'C04': dict(files=['C04'], rule="positions with terminal ones over-represented (mates, stalemates, small endgames)"),
  'C05': dict(files=['C05'], rule="MAKE lines along 300-ply playouts and complete move trees; Valid / is_sane / monotone counts checked on every successor"),
  'C06': dict(files=['C06'], rule="POS (fen, reparse), FENP on the harness's standard FEN writer, BFEN on random builder states"),
- 'C07': dict(files=['C07'], rule="FENP on grammar-directed, mutated, truncated and random Unicode text; BLD on random builder states with 2..64 men; BPARSE"),
+ 'C07': dict(files=['C07', 'C07Full'], rule="FENP on grammar-directed, mutated, truncated and random Unicode text; BLD on random builder states with 2..64 men; BPARSE"),
  'C08': dict(files=['C08'], rule="POS on transposition-rich streams; get_hash compared with the from-scratch hashOf of the position"),
  'C09': dict(files=['C09'], partial="the statistical clause (collisions no more frequent than chance among millions of explored positions) is measured by the COLL line, not proved: with 793 keys in GF(2)^64 collisions exist", rule="VAR: every single-component variant of sampled positions; COLL: millions of distinct positions hashed"),
  'C10': dict(files=['C10', 'C10NoPanic'], rule="GAME programs: random/adversarial action sequences incl. illegal moves, offers by both colours, premature accepts, actions after the end"),
